@@ -198,7 +198,8 @@ def transport_id(rng):
     p = rng.choice([0, 3, 4, 5, 5, 6])
     if p == 5:
         fmt = rng.getrandbits(1)
-        name = "iqn.1993-08.org.debian:01:" + "abcdef0123456789"[: rng.randrange(1, 10)]
+        # names that agree in a long prefix and differ late, in few distinct lengths
+        name = "iqn.1993-08.org.debian:01:" + "".join(rng.choice("abcdef01") for _ in range(rng.choice([1, 2, 2, 6, 6, 9])))
         if fmt:
             name += ",i,0x" + "0123456789ab"[: rng.choice([2, 12])]
         raw = name.encode() + b"\0"
